@@ -167,7 +167,8 @@ def run_unit(unit, twin=None, seed=None, rlimit=None, outdir=None, multiple_erro
         if c is None:
             continue
         (undec if c["undecided"] else failures).append(c)
-    res = {"cmd": "cd %s && %s" % (os.path.dirname(path), " ".join(cmd)), "meta": meta, "failures": failures,
+    res = {"cmd": "python3 /verif/tools/vgen.py %s%s --outdir <dir> && cd <dir> && %s" % (unit, (" --twin " + twin) if twin else "", " ".join(cmd)),
+           "meta": meta, "failures": failures,
            "verified": 0, "errors": 0, "functions": [], "undecided_reason": None, "generated": path}
     if out_json:
         vr = out_json.get("verification-results", {})
